@@ -225,6 +225,22 @@ where
         cx.expect_reject("header-edit", v(&msgs, h2.as_deref(), pk), || tag.to_string())?;
     }
 
+    // --- long data replaced by a digest of itself ------------------------------------------------
+    // (a "large input" shortcut that binds a long header or message through a hash of it makes the hash a second
+    // spelling of the same statement)
+    if hb.len() > 64 {
+        for (tag, d) in crate::bbs::digests_of(c.suite, &hb) {
+            cx.expect_reject("header-replaced-by-its-digest", v(&msgs, Some(&d), pk), || format!("header of {} octets := {}", hb.len(), tag))?;
+        }
+    }
+    if let Some((i, m)) = msgs.iter().enumerate().max_by_key(|(_, m)| m.len()).filter(|(_, m)| m.len() > 64) {
+        for (tag, d) in crate::bbs::digests_of(c.suite, m) {
+            let mut m2 = msgs.clone();
+            m2[i] = d;
+            cx.expect_reject("message-replaced-by-its-digest", v(&m2, hdr, pk), || format!("message {} of {} octets := {}", i, m.len(), tag))?;
+        }
+    }
+
     // the honest statement is verified again before each remaining family (stale-state defects need it)
     let prime = || {
         let _ = sig.verify(pk, Some(&msgs), hdr);
@@ -564,7 +580,7 @@ pub fn run(ctx: &Ctx, rep: &Report) -> Meta {
     Meta {
         rule: "honest (suite, key, header, msgs, signature) then the mutation catalogue enumerated per case: message byte change (random octet; first / last octet, one octet shorter / longer, leading zero octet for the first, last and one random message) / delete / prefix at every position, near-equal messages (same length, one octet apart, 7 to 1000 octets) in one vector, long data (messages and headers of 300 octets to 256 KiB), header-length-sweep: every header length 0..=1100 (quick) / 2400 for L in {1, 3, 10, 17} with tail edits, \
                insert (random, empty, neighbour) at every position 0..=L, extension by 1..=3, swap and replace-by-other of every pair with different contents (all pairs for L<=12), \
-               header edits as octet strings (including one of the same length with the same FNV-1a-32 value), refused verifications repeated a second time, pk in {other key, pk+G2, -pk}, every single-bit flip of the 80 signature octets (all 640 for L<=12), cross-suite, cross-interface in both directions (including the degenerate blind signature without commitment and without messages under every spelling of 'nothing', and the header-only plain signature through the blind verifier); \
+               header edits as octet strings (including one of the same length with the same FNV-1a-32 value), every header and the longest message above 64 octets replaced by 27 digests of itself (SHA-2, SHA-3, SHAKE, the suite's expand_message / hash_to_scalar under the library's tags; 32 / 48 / 64 octets), refused verifications repeated a second time, pk in {other key, pk+G2, -pk}, every single-bit flip of the 80 signature octets (all 640 for L<=12), cross-suite, cross-interface in both directions (including the degenerate blind signature without commitment and without messages under every spelling of 'nothing', and the header-only plain signature through the blind verifier); \
                the same catalogue under contention in a cold process, re-priming with the honest verification before the spelling / suite / interface families, all pairs swapped for half of the fixed shapes up to L = 33; oracle: every mutated verification (or decoding) returns Err; non-trivial = honest case with >= 5 mutation families executed; evaluations = mutated verifications"
             .into(),
         assumptions: vec![
